@@ -23,6 +23,11 @@ def model_case(draw, model):
     # targets >= 0 (stated domain); keep them strictly positive for the Poisson likelihood to be informative
     for r in rows:
         r["b"] = np.maximum(np.asarray(r["b"], dtype=float), 0.0).tolist()
+    if model == "poisson" and draw(st.integers(0, 3)) == 0:
+        # one receptor's target (nearly) dark next to ordinary ones: exact zero or 1e-6 .. 1e-12
+        r_ = rows[draw(st.integers(0, len(rows) - 1))]
+        r_["b"][draw(st.integers(0, len(r_["b"]) - 1))] = draw(st.sampled_from([0.0, 1e-6, 1e-9, 1e-12]))
+        r_["kind"] = r_["kind"] + "+dark-entry"
     W = None
     if model == "poisson" and draw(st.booleans()):
         W = draw(gens.array((len(sysd["A"]),), 0.3, 3.0, styles=("raw", "int")))
@@ -31,6 +36,12 @@ def model_case(draw, model):
                 accuracy=draw(st.sampled_from(["default", "high"])),
                 # how many targets are stacked into one problem: a performance setting only (Poisson / gaussian)
                 batch_size=(draw(st.sampled_from([None, None, 2, 3, "full"])) if model == "poisson" else None))
+
+
+def _targets(case):
+    """target rows; entries below 1e-300 are exact zeros"""
+    B = np.array([r["b"] for r in case["rows"]], dtype=float)
+    return np.where(np.abs(B) < 1e-300, 0.0, B)
 
 
 def run_model(sv, B, W, model, entry, **opt):
@@ -99,7 +110,7 @@ def poisson_witness(sv, b, w, starts):
 
 def body_poisson(case):
     sv = Sys(case["system"])
-    B = np.array([r["b"] for r in case["rows"]], dtype=float)
+    B = _targets(case)
     W = case["W"]
     bs = case.get("batch_size")
     with calling(f"poisson fit (batch_size={bs})"):
@@ -171,7 +182,7 @@ def excitation_opt(sv, b, iters=40):
 
 def body_excitation(case):
     sv = Sys(case["system"])
-    B = np.array([r["b"] for r in case["rows"]], dtype=float)
+    B = _targets(case)
     with calling("excitation fit"):
         X, Bp = run_model(sv, B, None, "excitation", case["entry"])
     # only the default solver (SCS bisection): the statement of C07 does not promise a solver pass-through for this model, and
@@ -224,7 +235,7 @@ def agree_case(draw):
 
 def body_agree(case):
     sv = Sys(case["system"])
-    B = np.array([r["b"] for r in case["rows"]], dtype=float)
+    B = _targets(case)
     labs = sv.labels()
     for model in case["models"]:
         bs = case.get("batch_size") if model != "excitation" else None
